@@ -106,7 +106,7 @@ CLAIMED["C01"] = {
             "With these, every arm of Exp::linearize and every function between the model-level loop and the emitted rows is under a discharged contract in the soundness direction. "
             "The statement is relative to Exp::simplify's contract, whose and / or arms are assumed and carry the C10 known finding (logic connectives over operands that are not 0/1-valued). " 
             "NOT decided deductively (listed in the evidence): the converse direction (no source-feasible point is cut off; big-M constants large enough), "
-            "domain publication after the loop, the equivalence between a sparse row and its dense coefficient vector (U08.coef gives the vector entry-wise), termination.",
+            "domain publication after the loop, that every variable of a row is marked used (so that it is in the position table), termination. The step from the named rows of the final context to the positional rows of the LinearModel IS proved (U08.asm with the ghost theorem lemma_laid_out_value: a positional row evaluated at the assignment read by position has the value of the named row).",
     "note": "Trusted: prelude/f64_layer.rs (floats as exact extended reals), prelude/smap.rs (IndexMap<String,_> view), prelude/std_stubs.rs. BoundsAnalyzer::bounds_of is used through its contract, proved in U07.fwd. "
             "Rules: format! abstracted to opaque strings (R6), auxiliary counters abstracted (R21), masked arms end in a diverging stub.",
     "technique": "Verus contracts woven into Exp::linearize and its helpers extracted from linearizer.rs on every run; arm masking; ghost semantics oracle spec/semantics.rs",
